@@ -1,14 +1,32 @@
-import SasLexer.Lex.Open
-/-!
-# Macro-mode dispatchers (everything `lex_token` dispatches to besides open code and
-string expressions)
--/
+import SasLexer.Lex.MacroEval
+import SasLexer.Lex.MacroArgs
+/-! # the macro-mode arms of `lex_token` -/
 namespace SasLexer
 open Prog (perform)
 open P
 
-/-- STUB (to be replaced by the full model): every macro mode -/
-def dispatchMacroMode (_cfg : Cfg) (_c : Char) (m : Mode) : Prog Unit :=
-  unmodelled ("mode " ++ m.encode)
+def dispatchMacroMode (cfg : Cfg) (c : Char) : Mode → Prog Unit
+  | .macroEval flags pnl => dispatchModeMacroEval cfg c flags pnl
+  | .macroStrQuotedExpr mask pnl => dispatchMacroStrQuotedExpr cfg c mask pnl
+  | .maybeMacroCallArgsOrLabel chk => lexMaybeMacroCallArgsOrLabel cfg c chk
+  | .maybeMacroCallArgAssign flags => lexMaybeMacroCallArgAssign cfg c flags
+  | .maybeTailMacroArgValue => lexMaybeTailMacroCallArgValue cfg c
+  | .macroCallArgOrValue flags => dispatchMacroCallArgOrValue cfg c flags
+  | .macroCallValue flags pnl => dispatchMacroCallArgValue cfg c flags pnl
+  | .maybeMacroDefArgs => lexMaybeMacroDefArgs cfg c
+  | .macroDefArg => dispatchMacroDefArg cfg c
+  | .macroDefNextArgOrDefaultValue => lexMacroDefNextArgOrDefaultValue cfg c
+  | .macroDo => dispatchMacroDo cfg c
+  | .macroLocalGlobal isLocal => dispatchMacroLocalGlobal cfg c isLocal
+  | .macroNameExpr found err => dispatchMacroNameExpr cfg c found err
+  | .macroSemiTerminatedTextExpr => dispatchMacroSemiTermTextExpr cfg c
+  | .macroStatOptionsTextExpr => dispatchMacroStatOptsTextExpr cfg c
+  | .macroDefName => do
+    startToken
+    let _ ← lexMacroDefIdentifier cfg c false
+    popMode
+  -- handled by `lex_token` itself
+  | .default | .stringExpr _ | .makeCheckpoint | .wsOrCStyleCommentOnly | .expectSymbol _ _
+  | .expectSemiOrEOF => pure ()
 
 end SasLexer
